@@ -26,3 +26,4 @@ func TestC04Cleanup(t *testing.T) { RunProp(t, propC04Cleanup) }
 func TestC03(t *testing.T)        { RunProp(t, propC03) }
 func TestC03Enum(t *testing.T)    { RunEnum(t, propC03) }
 func TestC18(t *testing.T)        { RunProp(t, propC18) }
+func TestC20(t *testing.T)        { RunProp(t, propC20) }
